@@ -34,6 +34,16 @@ CHECKS = {
             "For every generated history of gradient-presence masks and outcome scripts the predicted raise/no-raise and exception type must match at every step; tolerated failures must keep the previous matrix bitwise, store the successful ones, and log a warning naming the factor. Fault scripts are enumerated by generation, not exhaustively.",
             "Fault injection by unittest.mock on the names imported into shampoo_preconditioner_list; call order = parameters, blocks, factors of blocks with a gradient.",
             "6/C13"),
+    "C09": ("fault_enumeration",
+            "round-trip differential with enumerated crash points: for every stop step k of every generated history the saved (torch.save/load) distributed state dict is loaded into a fresh optimizer and the continuation is compared bitwise with the uninterrupted run; negative loads must raise",
+            "Every crash point k = 0..T of each generated history (configuration x gradient/mask/schedule sequence) is exercised; parameters and all state tensors must be bit-for-bit equal after every remaining step; structural key-count check; three kinds of corrupted checkpoints must be rejected.",
+            "Serial (non-DTensor) state layout; torch.save/load assumed bit-exact; the DDP/DTensor layout is exercised by the simulator-based checks.",
+            "6/C09"),
+    "C16": ("exploration",
+            "Hypothesis recursive strategies for nested dicts / OptimizerModule object graphs; round-trip (unflatten . flatten = prune-leafless), injectivity count, reachability-set equality, in-place load (tensor identity and storage) and consumer round-trip through update_param_state_dict_object",
+            "Tens of thousands of generated structures with adversarial keys (quotes, brackets, separators, JSON-looking strings, int vs digit-string) and leafless sub-dicts; module graphs mixing tensors, modules, dicts, lists, tuples and non-tensors.",
+            "Sets are not generated; keys are valid unicode text (no lone surrogates) or integers.",
+            "6/C16"),
 }
 
 PENDING_REASON = "check not built yet at this commit (work in progress; all eighteen properties are planned to be claimed, see DESIGN.md section 0)"
